@@ -36,11 +36,12 @@ def run(c):
             raise vlib.Infra("generator output incomplete: %d cases, %d states" % (len(cases), r.distinct))
         cases.sort(key=lambda s: 0 if '"kind":"verify"' in s else (1 if '"kind":"provider"' in s else 2))
         # the verifier's chain cache in front of the provider while a TRC update arrives
-        c.mc("ProviderCache", "ProviderCacheMC.cfg", workers=2, timeout=600)
-        ns = c.tlc("ProviderCache", "ProviderCacheMC.nostale.cfg", workers=1, timeout=600)
-        if "NoStale" in ns.inv_violated:
-            c.notes.append("model: a verifier cache hit can hand out the old-root chain after the grace period, for "
-                           "at most the cache expiration (StaleBounded holds, NoStale does not)")
+        if c.thorough:
+            c.mc("ProviderCache", "ProviderCacheMC.cfg", workers=2, timeout=600)
+            ns = c.tlc("ProviderCache", "ProviderCacheMC.nostale.cfg", workers=1, timeout=600)
+            if "NoStale" in ns.inv_violated:
+                c.notes.append("model: a verifier cache hit can hand out the old-root chain after the grace period, "
+                               "for at most the cache expiration (StaleBounded holds, NoStale does not)")
         scn = c.scratch + "/scn.ndjson"
         _pki.write_lines(scn, ['{"poola":%s,"poolb":%s,"trcsa":%s}' % (hdr[0][0], hdr[1][0], hdr[2][0])] + cases)
         c.run_driver(drv, ["-mode", "chains", "-scn", scn, "-out", trace], timeout=1800)
